@@ -124,14 +124,14 @@ Proof.
     apply Hn. eapply nth_error_In. exact Hg.
 Qed.
 
-Lemma frame_mk_fresh st vals lay dflt dt : frame_rel [] [] st (fst (mk_fresh st vals lay dflt dt)).
+Lemma frame_mk_fresh st vals cs lay dflt dt : frame_rel [] [] st (fst (mk_fresh st vals cs lay dflt dt)).
 Proof.
   unfold mk_fresh, alloc, new_obj. cbn.
   eapply frame_app; cbn; [reflexivity | reflexivity |].
   intros p' [H|[]]. inversion H. cbn. left. lia.
 Qed.
 
-Lemma mk_fresh_ref st vals lay dflt dt : snd (mk_fresh st vals lay dflt dt) = length (st_objs st).
+Lemma mk_fresh_ref st vals cs lay dflt dt : snd (mk_fresh st vals cs lay dflt dt) = length (st_objs st).
 Proof. reflexivity. Qed.
 
 Lemma get_obj_set_eq st r o : r < length (st_objs st) -> get_obj (set_obj st r o) r = Some o.
@@ -203,15 +203,15 @@ Lemma get_mt_obj st r d : get_mt st r = Some d -> get_obj st r = Some (OMT d).
 Proof. unfold get_mt. destruct (get_obj st r) as [[q|d0]|]; intros H; inversion H; reflexivity. Qed.
 
 (** a new PatternedTensor, then a dictionary update of [m] *)
-Lemma frame_fresh_set_mt st m d d' vals lay dflt dt :
+Lemma frame_fresh_set_mt st m d d' vals cs lay dflt dt :
   get_mt st m = Some d ->
-  frame_rel [m] [] st (set_obj (fst (mk_fresh st vals lay dflt dt)) m (OMT d')).
+  frame_rel [m] [] st (set_obj (fst (mk_fresh st vals cs lay dflt dt)) m (OMT d')).
 Proof.
   intros Hg. apply get_mt_obj in Hg. pose proof (get_obj_lt _ _ _ Hg) as Hlt.
   eapply frame_trans with (M1 := [m]).
-  - eapply frame_weaken; [apply (frame_mk_fresh st vals lay dflt dt) | | apply incl_refl]. intros x [].
+  - eapply frame_weaken; [apply (frame_mk_fresh st vals cs lay dflt dt) | | apply incl_refl]. intros x [].
   - eapply frame_set_mt with (d := d).
-    rewrite (fr_objs _ _ _ _ (frame_mk_fresh st vals lay dflt dt)); auto.
+    rewrite (fr_objs _ _ _ _ (frame_mk_fresh st vals cs lay dflt dt)); auto.
   - auto.
 Qed.
 
@@ -230,7 +230,7 @@ Proof.
     { unfold st1, write. destruct (nth_error (st_store st) (pt_sid p)); exact Ep. }
     eapply frame_trans with (M1 := [dst]); [exact F1 | apply (frame_set_pt _ _ _ _ Hg1); reflexivity | auto].
   - intros H. inversion H; subst.
-    apply (frame_rebind st dst p _ (phys st q) Ep). reflexivity.
+    apply (frame_rebind st dst p _ (place (phys st q) (clone_cells (pt_cells q))) Ep). reflexivity.
 Qed.
 
 Lemma map_inplace_frame st f x st' o :
@@ -247,10 +247,10 @@ Proof.
   apply (frame_write _ _ p1 _ _ Hg1).
 Qed.
 
-Lemma bin_fresh_eq st b p q prm : exists vals lay dflt dt, bin_fresh st b p q prm = mk_fresh st vals lay dflt dt.
-Proof. unfold bin_fresh, bin_vals. eauto. Qed.
+Lemma bin_fresh_eq st b p q prm : exists vals cs lay dflt dt, bin_fresh st b p q prm = mk_fresh st vals cs lay dflt dt.
+Proof. unfold bin_fresh, bin_vals. do 5 eexists. reflexivity. Qed.
 
-Lemma single_frame (body : state -> nat -> nat -> nat -> nat * layout -> state * out) :
+Lemma single_frame (body : state -> nat -> nat -> nat -> layout * list nat -> state * out) :
   (body = add_single \/ body = isub_single \/ body = max_single) ->
   forall st m k x prm st' o, body st m k x prm = (st', o) -> frame_rel [m] [] st st'.
 Proof.
@@ -262,18 +262,18 @@ Proof.
     (destruct (get_pt st x) as [q|] eqn:Eq; [|intros H; eapply R; eauto]);
     (destruct (lookup k d) as [e|] eqn:El).
   all: try (destruct (get_pt st e) as [p|] eqn:Ee; [|intros H; eapply R; eauto];
-            destruct (bin_fresh_eq st 0 p q prm) as [v0 [l0 [d0 [t0 E0]]]];
-            destruct (bin_fresh_eq st 1 p q prm) as [v1 [l1 [d1 [t1 E1]]]];
-            destruct (bin_fresh_eq st 3 p q prm) as [v3 [l3 [d3 [t3 E3]]]];
+            destruct (bin_fresh_eq st 0 p q prm) as [v0 [c0 [l0 [d0 [t0 E0]]]]];
+            destruct (bin_fresh_eq st 1 p q prm) as [v1 [c1 [l1 [d1 [t1 E1]]]]];
+            destruct (bin_fresh_eq st 3 p q prm) as [v3 [c3 [l3 [d3 [t3 E3]]]]];
             try rewrite E0; try rewrite E1; try rewrite E3;
-            match goal with |- context [mk_fresh ?s ?v ?l ?dd ?t] =>
-              destruct (mk_fresh s v l dd t) as [st1 r] eqn:Em;
+            match goal with |- context [mk_fresh ?s ?v ?c ?l ?dd ?t] =>
+              destruct (mk_fresh s v c l dd t) as [st1 r] eqn:Em;
               intros H; inversion H; subst;
               change st1 with (fst (st1, r)); rewrite <- Em; eapply frame_fresh_set_mt; eauto end).
   - intros H. inversion H. subst. eapply frame_set_mt. apply get_mt_obj. exact Ed.
   - unfold bin_vals.
-    match goal with |- context [mk_fresh ?s ?v ?l ?dd ?t] =>
-      destruct (mk_fresh s v l dd t) as [st1 r] eqn:Em;
+    match goal with |- context [mk_fresh ?s ?v ?c ?l ?dd ?t] =>
+      destruct (mk_fresh s v c l dd t) as [st1 r] eqn:Em;
       intros H; inversion H; subst;
       change st1 with (fst (st1, r)); rewrite <- Em; eapply frame_fresh_set_mt; eauto end.
   - intros H. inversion H. subst. eapply frame_set_mt. apply get_mt_obj. exact Ed.
@@ -295,7 +295,7 @@ Proof.
     eapply IH; eauto.
 Qed.
 
-Lemma loop_single_frame (body : state -> nat -> nat -> nat -> nat * layout -> state * out) :
+Lemma loop_single_frame (body : state -> nat -> nat -> nat -> layout * list nat -> state * out) :
   (body = add_single \/ body = isub_single \/ body = max_single) ->
   forall m prms l st st' o,
   loop (fun st kr => body st m (fst kr) (snd kr) (prm_of prms (fst kr))) st l = (st', o) ->
@@ -358,15 +358,15 @@ Proof.
       destruct (Hel e (lookup_In _ _ _ El)) as [?|[? ?]]; [assumption|lia].
   - destruct (get_pt s sr) as [q|]; [|inversion Hb; subst; split; [auto|exists []; split; [apply frame_refl|intros r []]]].
     unfold clone_pt in Hb.
-    destruct (mk_fresh s (phys s q) (pt_lay q) (pt_dflt q) (pt_dt q)) as [s1 r] eqn:Em.
+    destruct (mk_fresh s (phys s q) (clone_cells (pt_cells q)) (pt_lay q) (pt_dflt q) (pt_dt q)) as [s1 r] eqn:Em.
     inversion Hb. subst s' o'. clear Hb.
-    assert (Hr : r = length (st_objs s)) by (rewrite <- (mk_fresh_ref s (phys s q) (pt_lay q) (pt_dflt q) (pt_dt q)), Em; reflexivity).
+    assert (Hr : r = length (st_objs s)) by (rewrite <- (mk_fresh_ref s (phys s q) (clone_cells (pt_cells q)) (pt_lay q) (pt_dflt q) (pt_dt q)), Em; reflexivity).
     assert (HF1 : frame_rel [m] [] s (set_obj s1 m (OMT (d1 ++ [(k, r)])))).
     { change s1 with (fst (s1, r)). rewrite <- Em. eapply frame_fresh_set_mt. exact Hd1. }
     split.
     + exists (d1 ++ [(k, r)]). split.
       * unfold get_mt. rewrite get_obj_set_eq; [reflexivity|].
-        pose proof (fr_objs_len _ _ _ _ (frame_mk_fresh s (phys s q) (pt_lay q) (pt_dflt q) (pt_dt q))) as Hl.
+        pose proof (fr_objs_len _ _ _ _ (frame_mk_fresh s (phys s q) (clone_cells (pt_cells q)) (pt_lay q) (pt_dflt q) (pt_dt q))) as Hl.
         rewrite Em in Hl. cbn in Hl. apply get_mt_obj in Hd1. apply get_obj_lt in Hd1. lia.
       * pose proof (fr_objs_len _ _ _ _ HF) as Hl0.
         assert (Hl2 : length (st_objs (set_obj s1 m (OMT (d1 ++ [(k, r)])))) = S (length (st_objs s))).
@@ -466,7 +466,7 @@ Proof.
   - (* OProject *) destruct (get_pt st x); [|fr_err]. unfold ret1. intros H. inversion H. apply frame_mk_fresh.
   - (* OBin *) destruct (get_pt st x) as [p|]; [|fr_err]. destruct (get_pt st y) as [q|]; [|fr_err].
     destruct (_ =? _); [|fr_err]. unfold ret1.
-    destruct (bin_fresh_eq st b p q prm) as [v [l [d [t E]]]]. rewrite E.
+    destruct (bin_fresh_eq st b p q prm) as [v [c [l [d [t E]]]]]. rewrite E.
     intros H. inversion H. apply frame_mk_fresh.
   - (* OMNew *) unfold ret1, new_obj. cbn. intros H. inversion H.
     eapply frame_app with (nw := [OMT []]) (ex := []); cbn; [reflexivity | rewrite app_nil_r; reflexivity |].
